@@ -25,22 +25,23 @@ import (
 )
 
 type c12Loop struct {
-	id     int
-	v      string // IV variable name
-	typ    string
-	start  string
-	bound  string
-	op     string
-	step   int
-	stepV  string // non-empty: the step is this variable (its sign is not known to the analysis)
-	mul    int    // non-zero: the update is v *= mul (a geometric counter, not start + k*step)
-	cmpT   string // non-empty: the header test compares cmpT(v) with cmpT(bound)
-	rawN   string // non-empty: the bound, verbatim (an expression already of the counter's type)
-	rawS   string // non-empty: the start, verbatim
-	mirror bool   // the test is written with the counter as the RIGHT operand (`N > i` for `i < N`)
-	shape  string
-	native string
-	plain  string
+	id      int
+	v       string // IV variable name
+	typ     string
+	start   string
+	bound   string
+	op      string
+	step    int
+	stepV   string // non-empty: the step is this variable (its sign is not known to the analysis)
+	mul     int    // non-zero: the update is v *= mul (a geometric counter, not start + k*step)
+	cmpT    string // non-empty: the header test compares cmpT(v) with cmpT(bound)
+	rawN    string // non-empty: the bound, verbatim (an expression already of the counter's type)
+	rawS    string // non-empty: the start, verbatim
+	mirror  bool   // the test is written with the counter as the RIGHT operand (`N > i` for `i < N`)
+	revBody bool   // the body reads `b - 1 - i` (an affine function of the counter with a negated step)
+	shape   string
+	native  string
+	plain   string
 }
 
 func c12Neg(op string) string {
@@ -83,6 +84,9 @@ func c12Gen(l *c12Loop, inner [2]string) {
 		N = l.cmpT + "(" + l.bound + ")"
 	}
 	body := fmt.Sprintf("acc += int(%s)", v)
+	if l.revBody {
+		body = fmt.Sprintf("acc += b - 1 - int(%s)\nacc += int(%s) - a", v, v)
+	}
 	if inner[0] != "" {
 		body = "%INNER%"
 	}
@@ -208,6 +212,22 @@ func c12Family(thorough bool) []*c12Func {
 							l := &c12Loop{id: 0, v: "i", typ: T, start: start, bound: bound, op: op, step: step, shape: shape, mirror: true}
 							c12Gen(l, [2]string{})
 							add(fmt.Sprintf("%s/%s/mirrored:%s%s'i/start=%s/step=%+d", T, shape, bound, op, start, step), []*c12Loop{l}, l.plain, l.native)
+						}
+					}
+				}
+			}
+		}
+	}
+	// the body computes invariant - counter (reverse indexing: a[n-1-i])
+	for _, T := range []string{"int", "uint8"} {
+		for _, shape := range []string{"for3", "while", "bottom"} {
+			for _, op := range []string{"<", "<=", ">", "!="} {
+				for _, step := range []int{1, 2, -1} {
+					for _, start := range []string{"0", "a"} {
+						for _, bound := range []string{"10", "b"} {
+							l := &c12Loop{id: 0, v: "i", typ: T, start: start, bound: bound, op: op, step: step, shape: shape, revBody: true}
+							c12Gen(l, [2]string{})
+							add(fmt.Sprintf("%s/%s/reverse-index-body/i%s%s/start=%s/step=%+d", T, shape, op, bound, start, step), []*c12Loop{l}, l.plain, l.native)
 						}
 					}
 				}
